@@ -249,6 +249,72 @@ def call_flask_rp(auth):
             "headers": {"WWW-Authenticate": resp.headers.get("WWW-Authenticate")}, "body": {}}
 
 
+def flask1_app():
+    """Flask integration of the OAuth 1 provider (flask_oauth1.AuthorizationServer + ResourceProtector) on a dict cache"""
+    if "app1" in _FLASK:
+        return _FLASK["app1"]
+    from flask import Flask, jsonify
+    from authlib.integrations.flask_oauth1 import AuthorizationServer, ResourceProtector, current_credential
+    from authlib.integrations.flask_oauth1.cache import register_nonce_hooks, register_temporary_credential_hooks, create_exists_nonce_func
+    from authlib.oauth1.rfc5849.errors import OAuth1Error
+
+    class Cache:
+        def __init__(self): self.d = {}
+        def get(self, k): return self.d.get(k)
+        def set(self, k, v, timeout=None): self.d[k] = v
+        def delete(self, k): self.d.pop(k, None)
+        def has(self, k): return k in self.d
+    cache = Cache()
+    clients = {"ca": mem1.Client1("ca", "secret-a", "https://a/cb", None)}
+    tokens = {}
+    app = Flask("c20-oauth1")
+    app.config["PROPAGATE_EXCEPTIONS"] = True
+    app.config["OAUTH1_SUPPORTED_SIGNATURE_METHODS"] = ["HMAC-SHA1", "PLAINTEXT"]
+    server = AuthorizationServer(app, query_client=lambda cid: clients.get(cid))
+    register_nonce_hooks(server, cache)
+    register_temporary_credential_hooks(server, cache)
+    server.register_hook("create_token_credential", lambda token, temp: tokens.setdefault(token["oauth_token"], mem1.TokenCred(token["oauth_token"], token["oauth_token_secret"], temp.get_client_id(), 1)))
+    require_oauth = ResourceProtector(app, query_client=lambda cid: clients.get(cid), query_token=lambda cid, tok: tokens.get(tok),
+                                      exists_nonce=create_exists_nonce_func(cache))
+
+    @app.route("/initiate", methods=["GET", "POST"])
+    def initiate():
+        return server.create_temporary_credentials_response()
+
+    @app.route("/authorize", methods=["GET", "POST"])
+    def authorize():
+        try:
+            return server.create_authorization_response(grant_user=ms.User(1))
+        except OAuth1Error as e:          # "authorize endpoint should try catch this error"
+            return jsonify(dict(e.get_body())), e.status_code
+
+    @app.route("/token", methods=["GET", "POST"])
+    def token():
+        return server.create_token_response()
+
+    @app.route("/r", methods=["GET", "POST"])
+    @require_oauth()
+    def r():
+        return jsonify(ok=True)
+    _FLASK["app1"] = app
+    return app
+
+
+def call_flask1(ep, method, query, form, auth):
+    app = flask1_app()
+    try:
+        headers = {} if auth is None else {"Authorization": auth}
+        resp = app.test_client().open("/" + ep + (("?" + query) if query else ""), method=method, data=form, headers=headers, base_url="https://sp.example")
+    except Exception as e:
+        tb = "".join(__import__("traceback").format_tb(e.__traceback__)[-1:])
+        if "/werkzeug/" in tb and isinstance(e, (UnicodeEncodeError, ValueError)):
+            return {"kind": "response", "status": 400, "error": "invalid_request", "description": "", "headers": {}, "body": {}, "transport_refused": True}
+        return {"kind": "raised", "exc": type(e).__name__, "site": site_of(e), "msg": str(e)[:120]}
+    from urllib.parse import parse_qsl
+    body = dict(parse_qsl(resp.get_data(as_text=True))) if "json" not in (resp.content_type or "") else (resp.get_json(silent=True) or {})
+    return {"kind": "response", "status": resp.status_code, "error": body.get("error"), "description": body.get("error_description") or "", "headers": {}, "body": {}}
+
+
 def world_oidc():
     ms.install_clock(); CLOCK.now = 1_000_000
     store, srv, rp = ms.build(oidc=True)
@@ -376,6 +442,20 @@ def cases(rng, tier):
         for req in (None, ["a"], ["z"], "a b"):
             out.append({"t": "resource2", "auth": a, "required": req})
         out.append({"t": "flask_rp", "auth": a})
+    for ep in ("initiate", "token", "authorize", "r"):
+        for h in OAUTH1_HEADERS + [None]:
+            for method in ("GET", "POST"):
+                out.append({"t": "flask1", "ep": ep, "method": method, "query": "", "form": None, "auth": h})
+        for v in HOSTILE:
+            for pname in ("oauth_consumer_key", "oauth_token", "oauth_signature_method", "oauth_timestamp", "oauth_nonce", "oauth_signature", "oauth_callback", "oauth_verifier"):
+                base = {"oauth_consumer_key": "ca", "oauth_token": "tmp1", "oauth_signature_method": "PLAINTEXT", "oauth_timestamp": "1000000", "oauth_nonce": "nn",
+                        "oauth_signature": "secret-a&", "oauth_callback": "oob", "oauth_verifier": "v"}
+                base[pname] = v
+                from urllib.parse import urlencode
+                out.append({"t": "flask1", "ep": ep, "method": "POST", "query": "", "form": base, "auth": None})
+                out.append({"t": "flask1", "ep": ep, "method": "GET", "query": urlencode(base), "form": None, "auth": None})
+        for raw in ("a=%zz", "a b=c", "oauth_token=tmp1&oauth_token=tmp1", "=", "&&", "%"):
+            out.append({"t": "flask1", "ep": ep, "method": "GET", "query": raw, "form": None, "auth": None})
     for rt in ("code", "code id_token", "id_token", "id_token token", "code token", "code id_token token", "token"):
         for k in OIDC_BASE:
             for v in HOSTILE:
@@ -455,6 +535,9 @@ def impl(c):
         return call_resource(world2(), c["auth"], c["required"])
     if t == "flask_rp":
         return call_flask_rp(c["auth"])
+    if t == "flask1":
+        ms.install_clock(); CLOCK.now = 1_000_000
+        return call_flask1(c["ep"], c["method"], c["query"], c["form"], c["auth"])
     if t == "oidc_authorize":
         store, srv = world_oidc()
         return observe(lambda: srv.create_authorization_response(Req("POST", "https://as.example/authorize", dict(c["form"]), {}), grant_user=store.users[1]))
